@@ -1121,7 +1121,7 @@ impl Simulator {
         // Virtual traps.
         // See the flag for documentation.
         // Virtual HALT
-        if !self.flags.use_real_traps {
+        if !self.flags.use_real_traps && priority.is_none() {
             if let Ok(intv) = RealIntVect::try_from(vect) {
                 if !self.prefetch {
                     // decrement PC so that if play is pressed again, it goes back here
